@@ -46,6 +46,10 @@ NUM_PIECES = (("a", "t"), ("%", "t"), ("x", "v"), ("num", "v"))
 # whitespace family: trim_blocks / lstrip_blocks act on a body that starts with a newline or ends with an
 # indented line before {% pluralize %} / {% endtrans %}
 WS_PIECES = (("\n", "t"), ("a", "t"), ("%", "t"), ("x", "v"), ("\n  ", "t"))
+# inline-whitespace family: double blanks and tabs WITHIN a line must survive trimming (docs: trimmed replaces
+# "all linebreaks and the whitespace surrounding them" only)
+IL_SITE_PIECES = (("a", "t"), ("%", "t"), ("<b>", "t"), ("x", "v"), ("n", "v"))
+IL_PIECES = (("a", "t"), ("  ", "t"), ("\t", "t"), ("\n  ", "t"), ("x", "v"))
 WS_OPTS = ((False, False), (True, False), (False, True), (True, True))  # trim_blocks, lstrip_blocks
 
 # header key -> (source, declared variables in order [(name, value key)], trimmed modifier)
@@ -90,7 +94,7 @@ class Case:
         self.ctx = ctx
         self.hkey = hkey
         self.headers = NUM_HEADERS if num_family else HEADERS
-        self.pieces = NUM_PIECES if num_family else (WS_PIECES if self.fam == "ws" else PIECES)
+        self.pieces = NUM_PIECES if num_family else {"ws": WS_PIECES, "il": IL_PIECES, "site": IL_SITE_PIECES}.get(self.fam, PIECES)
         self.plural = plural
         self.sing = tuple(sing)
         self.plur = tuple(plur) if plur is not None else None
@@ -554,6 +558,120 @@ def ws_bodies(mid_len):
                     yield lead + mid + trail
 
 
+def shard_inline(arg):
+    """inline-whitespace family under trimmed / policy: bodies of <= n pieces over IL_PIECES."""
+    hkey, plural, total = arg
+    p = core.Part()
+    for k in range(total + 1):
+        for s in itertools.product(range(len(IL_PIECES)), repeat=k):
+            plurs = [None] if plural == "none" else [()] + [(i,) for i in range(len(IL_PIECES))]
+            for pl in plurs:
+                case = Case(False, hkey, plural, s, pl, "il")
+                p.count("inline_ws_templates")
+                for cfg in CONFIGS:
+                    p.evals += 1
+                    fails, tags = check_case(case, cfg, extract=not cfg[1])
+                    if fails:
+                        report(p, case, cfg, fails)
+                    if "syntax-error" in tags:
+                        p.count("illegal_blocks_rejected")
+                    else:
+                        p.count("renders", len(COUNTS))
+                        p.sig((cfg_name(cfg), "il", tuple(features(case)), tuple(tags)))
+                p.sample({"source": case.source()}, cap=1)
+    return p
+
+
+# --------------------------------------------------------------------------- definition site vs call site
+# A trans block inside a macro / call body that is WRITTEN where autoescaping is off and INVOKED inside a
+# constant {% autoescape true %} region (or the other way round).  The property: old-style and new-style
+# gettext produce the same text; and for macro results the autoescape setting is the runtime one at the call
+# (docs, api.rst "Evaluation Context": the setting can change at runtime, check eval_ctx not the environment).
+
+SITES = {
+    # name: (template with T for the trans block, « » the constant region, R-i18n wrapper or None)
+    "macro": ("{% macro m() %}T{% endmacro %}«{{ m() }}»", "%s"),
+    "macro-arg": ("{% macro m(e) %}T{% endmacro %}«{{ m(e) }}»", "%s"),
+    "call-body": ("{% macro m() %}({{ caller() }}){% endmacro %}«{% call m() %}T{% endcall %}»", "(%s)"),
+    "caller-in-region": ("{% macro m() %}«({{ caller() }})»{% endmacro %}{% call m() %}T{% endcall %}", "(%s)"),
+    "nested-macro": ("{% macro m() %}{% macro k() %}T{% endmacro %}{{ k() }}{% endmacro %}«{{ m() }}»", "%s"),
+    "self-block": ("{% block b %}T{% endblock %}«{{ self.b() }}»", None),
+    "block-in-region": ("«{% block b %}T{% endblock %}»", None),
+    "set-block": ("{% set s %}T{% endset %}«{{ s }}»", None),
+    "region-only": ("«T»", "%s"),
+}
+SITE_DIRECTIONS = (("off->on", False, "true"), ("on->off", True, "false"))
+
+
+def shard_sites(arg):
+    site, total = arg
+    p = core.Part()
+    tmpl, wrap = SITES[site]
+    for hkey in ("none", "x", "n"):
+        for plural in ("none", "implicit"):
+            for ctxs in (False, True):
+                for s, pl in bodies(len(IL_SITE_PIECES), total, plural):
+                    case = Case(ctxs, hkey, plural, s, pl, "site")
+                    if case.ambiguous():
+                        continue
+                    for dname, env_auto, region in SITE_DIRECTIONS:
+                        p.evals += 1
+                        src = tmpl.replace("T", case.source()).replace("«", "{% autoescape " + region + " %}") \
+                                  .replace("»", "{% endautoescape %}")
+                        outs = {}
+                        bad = None
+                        for new in (False, True):
+                            rec: list = []
+                            env = make_env((new, env_auto, False), rec)
+                            try:
+                                with core.alarm(10):
+                                    t = env.from_string(src)
+                                    outs[new] = [t.render(render_ctx(c)) for c in COUNTS]
+                            except core.CaseTimeout:
+                                outs[new] = "timeout"
+                            except Exception as e:  # noqa: BLE001
+                                outs[new] = "%s" % type(e).__name__
+                        m0 = model(case, (False, True, False), 0)
+                        if m0[0] == "error":
+                            if not (isinstance(outs[False], str) and isinstance(outs[True], str)):
+                                bad = ("accepted-illegal", "illegal block compiled: %r" % (outs,))
+                            p.count("illegal_blocks_rejected")
+                        elif outs[False] != outs[True]:
+                            bad = ("style-disagree", "old-style rendered %r, new-style %r" % (outs[False], outs[True]))
+                        elif isinstance(outs[False], str):
+                            bad = ("render-error:" + outs[False], "both styles raised %s" % outs[False])
+                        elif wrap is not None and dname == "off->on":
+                            # runtime setting at the call: values escaped, block text not
+                            exp = [wrap % model(case, (False, True, False), c)[1] for c in COUNTS]
+                            if outs[False] != exp:
+                                bad = ("render-mismatch", "rendered %r, expected %r" % (outs[False], exp))
+                        if m0[0] != "error":
+                            p.sig(("site", site, dname, tuple(features(case)),
+                                   "&lt;" in "".join(outs[False]) if not isinstance(outs[False], str) else None))
+                        if bad:
+                            p.violation("C33/site/%s/%s/%s" % (bad[0], site, dname), {
+                                "msg": "env autoescape=%s %r: %s" % (env_auto, src, bad[1]),
+                                "source": src, "env_autoescape": env_auto,
+                                "script": "from checks import c33\nc33.replay_site(%r, %r)\n" % (src, env_auto),
+                            })
+                        p.sample({"source": src, "env_autoescape": env_auto, "old_style": outs[False],
+                                  "new_style": outs[True]}, cap=1)
+    return p
+
+
+def replay_site(src, env_auto):
+    core.import_all_jinja()
+    print("Environment(autoescape=%s, extensions=['jinja2.ext.i18n'])" % env_auto, repr(src))
+    for new in (False, True):
+        env = make_env((new, env_auto, False), [])
+        for c in COUNTS:
+            try:
+                out = env.from_string(src).render(render_ctx(c))
+            except Exception as e:  # noqa: BLE001
+                out = "%s: %s" % (type(e).__name__, e)
+            print("newstyle=%s count=%d -> %r" % (new, c, out))
+
+
 def shard_ws(arg):
     """whitespace family: trim_blocks x lstrip_blocks in the rendering environment and in the babel options."""
     ctx, hkey, plural, mid_len, ws = arg
@@ -623,6 +741,9 @@ def run(ctx: core.Ctx):
         "CALIBRATED: the result of an old-style gettext() expression is a plain string and is escaped as a whole "
         "under autoescape (trans blocks are template text and are not)",
         "bodies whose adjacent pieces would spell a delimiter ({{, {%, {#) are skipped (counted)",
+        "definition-site/call-site family: old-style and new-style output must be identical for every structure and "
+        "direction; the absolute R-i18n expectation (values escaped, block text not) is asserted for macro / call-body "
+        "structures written with autoescape off and invoked inside {% autoescape true %} (runtime setting at the call)",
         "extraction is compared as a set of (function, string arguments) ignoring line numbers and comments",
         "whitespace family: trim_blocks/lstrip_blocks are set identically on the rendering Environment and in the "
         "babel_extract options ('true'/'false' strings); the model removes the first newline after a block tag "
@@ -642,6 +763,10 @@ def run(ctx: core.Ctx):
             for pl in ("none", "implicit"):
                 for c in ((False,) if ctx.quick else (False, True)):
                     shards.append((shard_ws, (c, hk, pl, 1 if ctx.quick else 2, ws)))
+    for hk, pl in (("trimmed", "none"), ("none", "none"), ("notrimmed", "none"), ("trimmed-n", "implicit")):
+        shards.append((shard_inline, (hk, pl, 3 if ctx.quick else 4)))
+    for site in SITES:
+        shards.append((shard_sites, (site, 2 if ctx.quick else 3)))
     for f in CALL_FUNCS:
         shards.append((shard_calls, (f, 3 if ctx.quick else 4)))
     ctx.pmap(_dispatch, shards)
